@@ -28,7 +28,15 @@ def cases(draw):
     crys, sl, jn, calc = vs.calculator(setup)
     sol = not (EXCLUDE_R1 and len(sl) > 1)
     data = draw(vs.datasets(calc, sol=sol))
-    return {"setup": setup, "data": data}
+    case = {"setup": setup, "data": data}
+    if draw(st.floats(0, 1)) < 0.6:
+        # go through the documented pipeline Lij(*preene2betafree(kT, **prefactors_and_energies)): random prefactors, kT and
+        # reference energies for vacancy and solute that reproduce exactly the free energies of `data`
+        pf = st.floats(-1.0, 1.0).map(lambda x: float(np.round(np.exp(x), 4)))
+        case["pipeline"] = {"kT": draw(st.sampled_from([0.3, 0.7, 1.0, 2.5])),
+                            "shiftV": float(np.round(draw(st.floats(-2, 2)), 3)), "shiftS": float(np.round(draw(st.floats(-2, 2)), 3)),
+                            "pre": {k: [draw(pf) for _ in data[k]] for k in ("bFV", "bFS", "bFSV", "bFT0", "bFT1", "bFT2")}}
+    return case
 
 
 def model(calc, data):
@@ -84,7 +92,19 @@ def check(case, budget=12000):
     data = case["data"]
     if not vs.sizes_ok(calc, data):
         raise HarnessError("stale case")
-    L0vv, Lss, Lsv, L1vv = calc.Lij(*vs.args(data))
+    pl = case.get("pipeline")
+    if pl is None:
+        L0vv, Lss, Lsv, L1vv = calc.Lij(*vs.args(data))
+    else:
+        kT, sV, sS = pl["kT"], pl["shiftV"], pl["shiftS"]
+        shift = {"bFV": sV, "bFS": sS, "bFSV": 0., "bFT0": sV, "bFT1": sV + sS, "bFT2": sV + sS}
+        names = {"bFV": "V", "bFS": "S", "bFSV": "SV", "bFT0": "T0", "bFT1": "T1", "bFT2": "T2"}
+        d = {}
+        for k, nm in names.items():
+            pre = np.array(pl["pre"][k], dtype=float)
+            d["pre" + nm] = pre
+            d["ene" + nm] = kT * (np.array(data[k], dtype=float) + np.log(pre)) + shift[k]
+        L0vv, Lss, Lsv, L1vv = calc.Lij(*calc.preene2betafree(kT, **d))
     basis, jumps, Fstate, Ftrans, FS, FV = model(calc, data)
     nb = len(basis)
     o = chain_ref.dilute_limit(np.array(crys.lattice), nb, jumps, Fstate, Ftrans, FS, FV, data["bFT0"], budget=budget)
@@ -100,6 +120,7 @@ def check(case, budget=12000):
     classes = cs.describe(crys) + vs.describe(calc, data)
     if case["setup"].get("redrawn"):
         classes.append("excluded_R11_redrawn")
+    classes.append("via_preene2betafree" if pl is not None else "direct_arrays")
     worst = {}
     for nm, lib in (("Lss", Lss), ("Lsv", Lsv), ("L1vv", L1vv)):
         tol = max(5 * o[nm + "_err"], 3e-4 * scale * pmax)
